@@ -168,6 +168,32 @@ def build(targets):
         sys.exit(2)
 
 
+class _Done:
+    def __init__(self, rc, out):
+        self.returncode = rc; self.stdout = out
+
+
+def run_driver(cmd, budget):
+    """Run one harness process in its own process group; its output goes to a file (worker processes inherit the
+    descriptors, a pipe would keep the front end waiting for them). None = it did not end within budget + slack."""
+    import signal, tempfile
+    with tempfile.TemporaryFile(mode='w+') as log:
+        p = subprocess.Popen(cmd, stdout=log, stderr=subprocess.STDOUT, start_new_session=True)
+        try:
+            rc = p.wait(timeout=budget * 2 + 300)
+        except subprocess.TimeoutExpired:
+            rc = None
+        try:
+            os.killpg(p.pid, signal.SIGKILL)   # whatever is left of the group (normally nothing)
+        except ProcessLookupError:
+            pass
+        if rc is None:
+            p.wait()
+            return None
+        log.seek(0)
+        return _Done(rc, log.read()[-4000:])
+
+
 def expand_configs(spec, binary):
     """'all' | 'a-b,c,d-e' -> list of (lo,hi) ranges"""
     return [spec]   # the driver takes 'all' or a comma separated list of numbers / ranges and shares the budget fairly
@@ -220,9 +246,8 @@ def run_property(prop, tier):
                     os.remove(out)
                 cmd = [B + '/' + r['bin'], '--config', cr, '--mode', r['mode'], '--P', str(r['P']), '--D', str(r['D']), '--E', str(r['E']),
                        '--jobs', str(JOBS), '--budget-s', str(r['budget']), '--replay-dir', rdir, '--out', out] + r['extra']
-                try:
-                    pr = subprocess.run(cmd, stdout=subprocess.PIPE, stderr=subprocess.STDOUT, text=True, timeout=r['budget'] * 3 + 600)
-                except subprocess.TimeoutExpired:
+                pr = run_driver(cmd, r['budget'])
+                if pr is None:
                     machinery.append('driver hung: ' + ' '.join(cmd)); continue
                 try:
                     d = json.load(open(out))
@@ -253,9 +278,8 @@ def run_property(prop, tier):
             if os.path.exists(out):
                 os.remove(out)
             cmd = [B + '/' + r['bin']] + r['args'] + ['--budget-s', str(r['budget']), '--replay-dir', rdir, '--out', out]
-            try:
-                pr = subprocess.run(cmd, stdout=subprocess.PIPE, stderr=subprocess.STDOUT, text=True, timeout=r['budget'] * 3 + 600)
-            except subprocess.TimeoutExpired:
+            pr = run_driver(cmd, r['budget'])
+            if pr is None:
                 machinery.append('driver hung: ' + ' '.join(cmd)); continue
             try:
                 d = json.load(open(out))
